@@ -44,4 +44,11 @@ PLANS = {
     ),
     "C17": dict(drive=True, shard=1500),
     "C18": dict(mc=[], gen=[], drive=True),
+    "C19": dict(
+        check_forms=["add", "sub", "mul"],
+        mc=[dict(model="MC_Programs", quick="MC_Programs_quick.cfg", thorough="MC_Programs_thorough.cfg")],
+        gen=[dict(model="Gen_Programs", quick="Gen_Programs.cfg",
+                  simulate=dict(quick=dict(num=1500, depth=48), thorough=dict(num=30000, depth=48)))],
+        drive=True,
+    ),
 }
